@@ -1,4 +1,6 @@
 import CalicoVerif.Proofs.C05
+import CalicoVerif.Model.C05Pol
+import CalicoVerif.Props.C03
 /-!
 C05 — Missing or invalid references fail closed.
 
@@ -141,10 +143,13 @@ theorem filter_asDelete (u : RawUpd R) : filter (asDelete u) = filter u := by
     | some (r, true) => rfl
     | some (r, false) => rfl
 
-/-- **Invalid = absent.**  Any history behaves exactly like the same history in which every value
+/-- **Invalid = absent, endpoint / profile-rules kinds** (`_partial`: these two kinds only; policy and
+tier kinds: `invalid_eq_absent_emitted_partial` below; other resource kinds are not modelled).  By
+itself this only says that the filter replaces a rejected value by nil; what "absent" then MEANS for
+the output is `missing_profile_denies` / `unreferenced_profile_inactive`.  Any history behaves exactly like the same history in which every value
 that fails validation has been replaced by a deletion of that key: same stored state, same calls
 to the rule scanner, at every position (apply to every prefix). -/
-theorem invalid_eq_absent (st : Arc R) (us : List (RawUpd R)) :
+theorem invalid_eq_absent_profiles_partial (st : Arc R) (us : List (RawUpd R)) :
     runRaw st us = runRaw st (us.map asDelete) := by
   unfold runRaw
   rw [List.map_map]
@@ -155,14 +160,315 @@ theorem invalid_eq_absent (st : Arc R) (us : List (RawUpd R)) :
 
 /-- **Never partially applied.**  What an invalid value contains is irrelevant: two histories that
 differ only in the contents of values that fail validation behave identically. -/
-theorem invalid_content_irrelevant (st : Arc R) (us us' : List (RawUpd R))
+theorem invalid_content_irrelevant_profiles_partial (st : Arc R) (us us' : List (RawUpd R))
     (h : us.map asDelete = us'.map asDelete) : runRaw st us = runRaw st us' := by
-  rw [invalid_eq_absent st us, invalid_eq_absent st us', h]
+  rw [invalid_eq_absent_profiles_partial st us, invalid_eq_absent_profiles_partial st us', h]
 
 /-- A value that passes validation reaches the calculator unchanged. -/
 theorem filter_valid_passthrough (ep p : String) (ids : List String) (r : R) :
     filter (R := R) (.endpoint ep (some (ids, true))) = .endpoint ep (some ids) ∧
     filter (.profileRules p (some (r, true))) = .profileRules p (some r) := ⟨rfl, rfl⟩
+
+/-! ### policy and tier kinds: filter in front of the PolicyResolver / PolicySorter (C03 model) -/
+
+section PolTier
+open CalicoVerif.C02 CalicoVerif.C03
+
+/-- a raw history: datastore updates before validation, the ARC's match calls, flushes -/
+inductive RawStep where
+  | ev (e : RawEvent)
+  | flush
+
+def filterStep : RawStep → RStep
+  | .ev e => .ev (filterEv e)
+  | .flush => .flush
+
+def asDeleteStep : RawStep → RawStep
+  | .ev e => .ev (asDeleteEv e)
+  | .flush => .flush
+
+/-- ValidationFilter, then resolver, from a fresh resolver; per flush the emitted calls -/
+def runPol (h : List RawStep) : Option (Resolver × List (List (PolicyKey × EpKey) × List Call)) :=
+  runR {} (h.map filterStep)
+
+/-- the tier resources that exist (and are valid) after a raw history: last valid writer wins -/
+def tierTable (h : List RawStep) : TierDS := dsHist [] (h.map filterStep)
+
+theorem dsHist_append (ds : TierDS) (a b : List RStep) : dsHist ds (a ++ b) = dsHist (dsHist ds a) b := by
+  induction a generalizing ds with
+  | nil => rfl
+  | cons x a ih => cases x <;> simp only [List.cons_append, dsHist, ih]
+
+/-- `tierTable` is "last valid writer wins": a valid tier update stores (order, default action); a
+deletion or an update that fails validation removes the tier; nothing else touches it. -/
+theorem tier_table_after (h : List RawStep) (n : String) (v : Option ((Option Int × String) × Bool)) (n' : String) :
+    mget (tierTable (h ++ [.ev (.tier n v)])) n' = if n' = n then validated v else mget (tierTable h) n' := by
+  unfold tierTable
+  rw [List.map_append, dsHist_append]
+  simp only [List.map_cons, List.map_nil, filterStep, filterEv, dsHist, dsEvent, dsTier]
+  cases hv : validated v with
+  | none => simp only [mget_mdel]
+  | some x => simp only [mget_mset]
+
+/-- a tier that no update of the history ever mentioned does not exist -/
+theorem tier_never_mentioned (h : List RawStep) (n : String)
+    (hn : ∀ n' v, RawStep.ev (.tier n' v) ∈ h → n' ≠ n) : mget (tierTable h) n = none := by
+  unfold tierTable
+  have : ∀ (hs : List RawStep) (ds : TierDS), (∀ n' v, RawStep.ev (.tier n' v) ∈ hs → n' ≠ n) →
+      mget (dsHist ds (hs.map filterStep)) n = mget ds n := by
+    intro hs
+    induction hs with
+    | nil => intro ds _; rfl
+    | cons x hs ih =>
+      intro ds hx
+      have hrest := ih
+      cases x with
+      | flush => exact ih ds (fun n' v hm => hx n' v (List.mem_cons_of_mem _ hm))
+      | ev e =>
+        simp only [List.map_cons, filterStep, dsHist]
+        rw [ih _ (fun n' v hm => hx n' v (List.mem_cons_of_mem _ hm))]
+        cases e with
+        | tier n' v =>
+          have hne : n' ≠ n := hx n' v (List.mem_cons_self ..)
+          have hne' : ¬ n = n' := fun e => hne e.symm
+          simp only [filterEv, dsEvent, dsTier]
+          cases validated v with
+          | none => simp only [mget_mdel, hne', if_false]
+          | some x => simp only [mget_mset, hne', if_false]
+        | endpoint k v => rfl
+        | policy k v => rfl
+        | status s => rfl
+        | matchStarted p e => rfl
+        | matchStopped p e => rfl
+  rw [this h [] hn]; rfl
+
+/-- **A missing, deleted-while-referenced or invalid TIER fails closed, for every history.**  Take any
+raw history (tier / policy / endpoint updates with any validation verdicts, the ARC's match calls,
+flushes anywhere), let the resolver be in sync and flush.  Every tier an endpoint is told about carries
+the order and default action of the tier resource that currently exists and is valid; a tier that is
+only NAMED by a policy — never created, deleted while policies still reference it, or whose latest
+version failed validation — is listed with NO order and the EMPTY default action (= deny at the end of
+the tier), whatever order / default action (e.g. Pass) it had before.  Its position in the tier list:
+after all existing tiers (C03: tiers ascend under `TierLess`, `Valid` first). -/
+theorem dangling_tier_fails_closed (h : List RawStep) (r0 : Resolver)
+    (outs0 : List (List (PolicyKey × EpKey) × List Call)) (h0 : runPol h = some (r0, outs0))
+    (hsync : r0.inSync = true) (r' : Resolver) (calls : List Call) (hf : r0.flush = some (r', calls))
+    (e : EpKey) (u : EpUpd) (hu : Call.endpointUpdate e (some u) ∈ calls) (t' : TierInfo) (ht' : t' ∈ u.tiers) :
+    match mget (tierTable h) t'.name with
+    | some (o, a) => t'.order = o ∧ t'.defaultAction = a
+    | none => t'.order = none ∧ t'.defaultAction = "" := by
+  have hfull := runR_content RInv.init (h.map filterStep) h0
+  have hta := runR_tiers SInv.init TierAttr.init (h.map filterStep) h0
+  exact emitted_tier_attrs hfull.sinv hta hsync hf e u hu t' ht'
+
+/-- **… exactly as if the tier had never existed.**  The three ways a tier reference can dangle —
+(a) no update ever mentioned the tier, (b) the history ends with its deletion, (c) the history ends
+with a version of it that fails validation — give the same tier table entry (none), hence by
+`dangling_tier_fails_closed` the same emitted attributes. -/
+theorem dangling_same_as_never_existed (h : List RawStep) (n : String) (x : (Option Int × String)) :
+    mget (tierTable (h ++ [.ev (.tier n none)])) n = none ∧
+    mget (tierTable (h ++ [.ev (.tier n (some (x, false)))])) n = none ∧
+    ((∀ n' v, RawStep.ev (.tier n' v) ∈ h → n' ≠ n) → mget (tierTable h) n = none) := by
+  refine ⟨?_, ?_, tier_never_mentioned h n⟩
+  · rw [tier_table_after]; simp [validated]
+  · rw [tier_table_after]; simp [validated]
+
+/-- **Invalid = absent at the level of the emitted endpoint / tier data** (`_partial`: endpoint, policy
+and tier kinds, profile rules above; other resource kinds are not modelled): every flush of a raw
+history emits exactly the calls it emits when each value that fails validation is replaced by a
+deletion of its key.  (This is the filter's contract; what absence then means for the output is
+`dangling_tier_fails_closed` and `invalid_policy_not_listed_partial`.) -/
+theorem invalid_eq_absent_emitted_partial (h : List RawStep) : runPol h = runPol (h.map asDeleteStep) := by
+  unfold runPol
+  rw [List.map_map]
+  congr 1
+  apply List.map_congr_left
+  intro s _
+  cases s with
+  | flush => rfl
+  | ev e =>
+    simp only [Function.comp, asDeleteStep, filterStep]
+    congr 1
+    cases e with
+    | endpoint k v => match v with
+      | none => rfl
+      | some (_, true) => rfl
+      | some (_, false) => rfl
+    | policy k v => match v with
+      | none => rfl
+      | some (_, true) => rfl
+      | some (_, false) => rfl
+    | tier n v => match v with
+      | none => rfl
+      | some (_, true) => rfl
+      | some (_, false) => rfl
+    | status s => rfl
+    | matchStarted p e => rfl
+    | matchStopped p e => rfl
+
+/-- the resolver's policy table after a history is "last valid writer wins" -/
+def polHist (ps : List (PolicyKey × PolMeta)) : List RStep → List (PolicyKey × PolMeta)
+  | [] => ps
+  | .ev (.policy k (some p)) :: t => polHist (mset k (extractPolicyMetadata p) ps) t
+  | .ev (.policy k none) :: t => polHist (mdel k ps) t
+  | _ :: t => polHist ps t
+
+theorem flush_allPolicies {r r' : Resolver} {calls : List Call} (hf : r.flush = some (r', calls)) :
+    r'.allPolicies = r.allPolicies := by
+  unfold Resolver.flush at hf
+  split at hf
+  · simp only [Option.some.injEq, Prod.mk.injEq] at hf; rw [← hf.1]
+  · dsimp only at hf
+    split at hf
+    · cases hf
+    · simp only [Option.some.injEq, Prod.mk.injEq] at hf; rw [← hf.1]
+
+theorem allPolicies_ite {c : Prop} [Decidable c] (a b : Resolver) :
+    (if c then a else b).allPolicies = if c then a.allPolicies else b.allPolicies := by
+  split <;> rfl
+
+theorem applyPolicy_allPolicies (r : Resolver) (k : PolicyKey) (m : Option PolMeta) :
+    (r.applyPolicy k m).allPolicies = r.allPolicies := by
+  unfold Resolver.applyPolicy
+  split
+  · rfl
+  · dsimp only
+    split <;> rfl
+
+theorem step_allPolicies (r : Resolver) (e : C03.Event) :
+    (r.step e).allPolicies = match e with
+      | .policy k (some p) => mset k (extractPolicyMetadata p) r.allPolicies
+      | .policy k none => mdel k r.allPolicies
+      | _ => r.allPolicies := by
+  cases e with
+  | endpoint k v => cases v <;> rfl
+  | policy k v =>
+    cases v with
+    | none =>
+      show ((r.recordPolicy k none).applyPolicy k _).allPolicies = _
+      rw [applyPolicy_allPolicies]; rfl
+    | some p =>
+      show ((r.recordPolicy k (some p)).applyPolicy k _).allPolicies = _
+      rw [applyPolicy_allPolicies]; rfl
+  | tier n v => rfl
+  | status s => simp only [Resolver.step]; split <;> rfl
+  | matchStarted p e => simp only [Resolver.step]; split <;> rfl
+  | matchStopped p e => simp only [Resolver.step]; split <;> rfl
+
+theorem runR_allPolicies (hist : List RStep) (r r0 : Resolver)
+    (outs : List (List (PolicyKey × EpKey) × List Call)) (hr : runR r hist = some (r0, outs)) :
+    r0.allPolicies = polHist r.allPolicies hist := by
+  induction hist generalizing r outs with
+  | nil => simp only [runR, Option.some.injEq, Prod.mk.injEq] at hr; rw [← hr.1]; rfl
+  | cons x hist ih =>
+    cases x with
+    | ev e =>
+      simp only [runR] at hr
+      rw [ih _ _ hr, step_allPolicies]
+      cases e with
+      | policy k v => cases v <;> rfl
+      | endpoint k v => rfl
+      | tier n v => rfl
+      | status s => rfl
+      | matchStarted p e => rfl
+      | matchStopped p e => rfl
+    | flush =>
+      simp only [runR] at hr
+      cases hf : r.flush with
+      | none => rw [hf] at hr; cases hr
+      | some rc =>
+        obtain ⟨r1, calls⟩ := rc
+        rw [hf] at hr
+        simp only at hr
+        cases h2 : runR r1 hist with
+        | none => rw [h2] at hr; cases hr
+        | some ro =>
+          obtain ⟨r2, outs2⟩ := ro
+          rw [h2] at hr
+          simp only [Option.some.injEq, Prod.mk.injEq] at hr
+          obtain ⟨rfl, _⟩ := hr
+          rw [ih _ _ h2, flush_allPolicies hf]
+          rfl
+
+/-- the policies that exist (and are valid) after a raw history -/
+def polTable (h : List RawStep) : List (PolicyKey × PolMeta) := polHist [] (h.map filterStep)
+
+/-- **A missing / deleted / invalid POLICY is not applied** (`_partial`: for the endpoints a flush
+emits, inherited from C03's `emitted_lists_exact_partial`; which endpoints a policy matches is the
+ARC's input — that the real ARC stops the matches of a deleted policy is checked by the harness).
+After any raw history, in sync, a flush lists policy `p` with metadata `m` in its tier for endpoint
+`e` iff `p` currently matches `e` AND `m` is the metadata of the latest VALID version of `p`; in
+particular a policy that was deleted, or whose latest version failed validation, is listed nowhere
+with any metadata — the endpoint falls through to the tier's default action as if the policy had
+never existed. -/
+theorem invalid_policy_not_listed_partial (K : PolicyKey → Prop) (hK : KeyU K) (h : List RawStep)
+    (hin : HistIn K (h.map filterStep)) (r0 : Resolver)
+    (outs0 : List (List (PolicyKey × EpKey) × List Call)) (h0 : runPol h = some (r0, outs0))
+    (hsync : r0.inSync = true) (r' : Resolver) (calls : List Call) (hf : r0.flush = some (r', calls))
+    (e : EpKey) (u : EpUpd) (hu : Call.endpointUpdate e (some u) ∈ calls) (p : PolicyKey) (m : PolMeta) :
+    (∃ t' ∈ u.tiers, t'.name = m.tier ∧ ⟨p, m⟩ ∈ t'.policies) ↔
+      ((p, e) ∈ r0.matched ∧ mget (polTable h) p = some m) := by
+  have := emitted_lists_exact_partial K hK (h.map filterStep) hin r0 outs0 h0 hsync r' calls hf e u hu p m
+  rw [this, runR_allPolicies _ _ _ _ h0]
+  rfl
+
+/-- `polTable` is "last valid writer wins" -/
+theorem pol_table_after (h : List RawStep) (k : PolicyKey) (v : Option (PolicyIn × Bool)) (k' : PolicyKey) :
+    mget (polTable (h ++ [.ev (.policy k v)])) k' =
+      if k' = k then (validated v).map extractPolicyMetadata else mget (polTable h) k' := by
+  have happ : ∀ (a b : List RStep) (ps : List (PolicyKey × PolMeta)), polHist ps (a ++ b) = polHist (polHist ps a) b := by
+    intro a
+    induction a with
+    | nil => intro b ps; rfl
+    | cons x a ih =>
+      intro b ps
+      cases x with
+      | flush => simp only [List.cons_append, polHist, ih]
+      | ev e =>
+        cases e with
+        | policy k v => cases v <;> simp only [List.cons_append, polHist, ih]
+        | endpoint k v => simp only [List.cons_append, polHist, ih]
+        | tier n v => simp only [List.cons_append, polHist, ih]
+        | status s => simp only [List.cons_append, polHist, ih]
+        | matchStarted p e => simp only [List.cons_append, polHist, ih]
+        | matchStopped p e => simp only [List.cons_append, polHist, ih]
+  unfold polTable
+  rw [List.map_append, happ]
+  simp only [List.map_cons, List.map_nil, filterStep, filterEv]
+  cases hv : validated v with
+  | none => simp only [polHist, mget_mdel, Option.map_none]
+  | some x => simp only [polHist, mget_mset, Option.map_some]
+
+/-! non-vacuity: tier `t1` with default action Pass, a matching policy in it, flush; then the tier is
+deleted while the policy still names it, flush: the endpoint is told `t1` with no order and the empty
+default action. -/
+def exPol : List RawStep :=
+  [ .ev (.status true),
+    .ev (.tier "t1" (some ((some 100, "Pass"), true))),
+    .ev (.endpoint (.wep "1") (some (⟨"cali1", []⟩, true))),
+    .ev (.policy ⟨"p1", "", "GlobalNetworkPolicy"⟩ (some (⟨"t1", some 100, false, false, false, []⟩, true))),
+    .ev (.matchStarted ⟨"p1", "", "GlobalNetworkPolicy"⟩ (.wep "1")),
+    .flush,
+    .ev (.tier "t1" none) ]
+
+example : mget (tierTable exPol) "t1" = none := by decide
+
+/-- the (name, order, default action) of the tiers the final flush tells endpoint `e` -/
+def finalTiers (h : List RawStep) (e : EpKey) : Option (List (String × Option Int × String)) :=
+  match runPol h with
+  | some (r0, _) =>
+    match r0.flush with
+    | some (_, calls) => calls.findSome? (fun c => match c with
+        | .endpointUpdate e' (some u) =>
+          if e' = e then some (u.tiers.map (fun t => (t.name, t.order, t.defaultAction))) else none
+        | _ => none)
+    | none => none
+  | none => none
+
+example : finalTiers (exPol.take 5) (.wep "1") = some [("t1", some 100, "Pass")] := by decide
+example : finalTiers exPol (.wep "1") = some [("t1", none, "")] := by decide
+
+end PolTier
 
 /-! ### non-vacuity: late creation, invalid replacement, deletion while referenced -/
 
